@@ -126,4 +126,9 @@ def run (s : RSt) : List Op → RSt × List Out
 def attached (idc : Nat) (mode : Mode) : RSt :=
   { dc := idc, lc := 0, drain := false, processed := 0, mode := mode, queued := 0, pending := 0 }
 
+/-- `ReceiverInner::resume_incoming_attach` when nothing is queued: the delivery-count is the one the
+    sender's new attach carries, and the credit held is issued again (`set_credit(link_credit)`) -/
+def resume (s : RSt) (idc : Nat) : RSt × List Out :=
+  onSetCredit { s with dc := idc } s.lc
+
 end Amqp.RecvCredit
